@@ -91,7 +91,7 @@ impl Monitor for C17 {
     }
     fn mandatory_buckets(&self, _tier: Tier) -> Vec<String> {
         let mut v: Vec<String> = METHODS.iter().map(|m| format!("method/{m}")).collect();
-        for b in ["merge/two_inputs", "merge/input_and_cluster", "merge/two_clusters", "exact_replay_completed", "n/2", "distance_range/mixed_sign", "distance_range/negative", "distance_range/large", "input/empty_set", "input/set_with_ancestor_and_descendant"] {
+        for b in ["merge/two_inputs", "merge/input_and_cluster", "merge/two_clusters", "exact_replay_completed", "n/2", "distance_range/mixed_sign", "distance_range/negative", "distance_range/large", "input/empty_set", "input/identical_sets", "input/set_with_ancestor_and_descendant"] {
             v.push(b.to_string());
         }
         v
@@ -120,7 +120,16 @@ impl Monitor for C17 {
             seen.insert(vec![]);
             out.bucket("input/empty_set");
         }
+        let allow_identical = n >= 3 && rng.chance(1, 8);
+        if allow_identical {
+            out.bucket("input/identical_sets");
+        }
         while sets.len() < n {
+            if allow_identical && sets.len() == 1 {
+                let c = sets[0].clone();
+                sets.push(c); // an identical twin (ties are then expected; structural checks still apply)
+                continue;
+            }
             let k = rng.urange(1, 5);
             let mut s: Vec<u32> = rng.sample_indices(n_terms as usize, k).iter().map(|i| *i as u32 + 2).collect();
             s.sort_unstable();
@@ -223,19 +232,21 @@ impl Monitor for C17 {
         let lg = log.borrow();
         out.bucket_n("callback_invocations", lg.len() as u64);
         if let Some(first) = lg.first() {
-            let mut seen_pairs: BTreeMap<(usize, usize), usize> = BTreeMap::new();
-            for (a, b) in first {
-                let ia = sets.iter().position(|s| s == a);
-                let ib = sets.iter().position(|s| s == b);
-                match (ia, ib) {
-                    (Some(x), Some(y)) => *seen_pairs.entry((x.min(y), x.max(y))).or_insert(0) += 1,
-                    _ => out.violate("C17", "callback_unknown_set", format!("initial callback received a set that is not an input: {a:?} / {b:?}")),
+            // multiset of unordered pairs of set contents (input sets may be identical)
+            let mut expected_pairs: BTreeMap<(Vec<u32>, Vec<u32>), usize> = BTreeMap::new();
+            for i in 0..n {
+                for j in i + 1..n {
+                    let (x, y) = if sets[i] <= sets[j] { (sets[i].clone(), sets[j].clone()) } else { (sets[j].clone(), sets[i].clone()) };
+                    *expected_pairs.entry((x, y)).or_insert(0) += 1;
                 }
             }
-            let mut ok = seen_pairs.len() == n * (n - 1) / 2 && seen_pairs.values().all(|c| *c == 1);
-            ok &= !seen_pairs.keys().any(|(x, y)| x == y);
-            out.check(ok, "C17", &format!("initial_pairs/{m}"), || {
-                format!("n={n}: initial callback saw {} distinct unordered pairs over {} items (expected {} each once)", seen_pairs.len(), first.len(), n * (n - 1) / 2)
+            let mut seen_pairs: BTreeMap<(Vec<u32>, Vec<u32>), usize> = BTreeMap::new();
+            for (a, b) in first {
+                let (x, y) = if a <= b { (a.clone(), b.clone()) } else { (b.clone(), a.clone()) };
+                *seen_pairs.entry((x, y)).or_insert(0) += 1;
+            }
+            out.check(seen_pairs == expected_pairs, "C17", &format!("initial_pairs/{m}"), || {
+                format!("n={n}: initial callback saw {} pairs ({} distinct), expected every unordered pair of the {n} inputs exactly once ({} pairs)", first.len(), seen_pairs.len(), n * (n - 1) / 2)
             });
             out.bucket_n("callback_pairs_logged", lg.iter().map(|v| v.len() as u64).sum());
         } else {
